@@ -209,6 +209,15 @@ CHECKS = {'C01': ('exploration',
 
 
 # additions of round 6, appended to the level text
+ROUND8 = {
+    "C01": "rails that only normalise case / whitespace of the user text (exact spellings).",
+    "C03": "a raise in a fault-free conversation is a violation (sync wrappers around async actions).",
+    "C04": "sequences of 3-5 events at one statement with == values that print differently.",
+    "C11": "compiled regexes with out-of-pattern flags held across the cut.",
+    "C15": "the empty context message and JSON texts in re-spelled histories, parameters declared as None next to model_kwargs.",
+    "C16": "whitespace around texts, texts that begin with a dollar sign.",
+}
+
 ROUND7 = {
     "C17": "generated values rendered through a predefined bot message that mentions the variable.",
     "C03": "later turns that repeat the LLM text of a faulted turn, exception kinds from the LangChain hierarchy.",
@@ -270,6 +279,8 @@ def main():
             text = text.rstrip() + " Since round 6 also: " + ROUND6[pid]
         if pid in ROUND7:
             text = text.rstrip() + " Since round 7 also: " + ROUND7[pid]
+        if pid in ROUND8:
+            text = text.rstrip() + " Since round 8 also: " + ROUND8[pid]
         checks.append(
             {
                 "property_id": pid,
